@@ -80,7 +80,7 @@ def dir_paths(shape):
     return paths
 
 
-def build(root, shape, links, ignore, prefix_names=False):
+def build(root, shape, links, ignore, prefix_names=False, pruned=None):
     """links: [(location index, target index)], ignore: None | ('link', k) |
     ('above', k).  Returns the list of link paths."""
     paths = dir_paths(shape)
@@ -118,6 +118,17 @@ def build(root, shape, links, ignore, prefix_names=False):
             loc = links[k][0]
             if paths[loc]:
                 ignores.append(paths[loc])
+    if pruned:
+        # next to every link a directory that the walk prunes: a hidden one, or an
+        # IGNOREd one (neither changes where the links lead)
+        for loc in sorted({loc for loc, _ in links}):
+            base = os.path.join(root, paths[loc]) if paths[loc] else root
+            nm = '.cache' if pruned == 'hidden' else 'junk'
+            os.makedirs(os.path.join(base, nm), exist_ok=True)
+            with open(os.path.join(base, nm, 'x'), 'w') as f:
+                f.write('pruned')
+            if pruned == 'ignored':
+                ignores.append((paths[loc] + '/' if paths[loc] else '') + nm)
     return paths, lpaths, ignores
 
 
@@ -267,7 +278,10 @@ def exec_loop_case(ctx, case):
         paths, lpaths, ignores = build(root, case['shape'],
                                        [tuple(x) for x in case['links']],
                                        tuple(case['ignore']) if case['ignore'] else None,
-                                       prefix_names=bool(case.get('prefix_names')))
+                                       prefix_names=bool(case.get('prefix_names')),
+                                       pruned=case.get('pruned'))
+        if case.get('pruned'):
+            ctx.count('pruned_sibling_cases')
         loop, files, nd = explore(root, set(ignores))
         write_manifest(root, files, ignores)
         judge_loop(ctx, root, case, ignores)
@@ -290,6 +304,7 @@ def run_enum(u, ctx):
                         'links': [list(x) for x in links],
                         'ignore': list(ign) if ign else None,
                         'prefix_names': k % 2 == 1, 'rel': k % 5 == 0,
+                        'pruned': [None, 'hidden', 'ignored'][(k // 2) % 3],
                         'wseed': (k * 7919 + ctx.seed) % (1 << 30)}
                 exec_loop_case(ctx, case)
                 k += 1
@@ -308,6 +323,7 @@ def run_rand(u, ctx):
                       ['above', rng.randrange(len(links))]])
     case = {'kind': 'loop', 'shape': shape, 'links': links, 'ignore': ign,
             'prefix_names': rng.random() < 0.5, 'rel': rng.random() < 0.5,
+            'pruned': rng.choice([None, 'hidden', 'ignored']),
             'wseed': rng.randrange(1 << 30)}
     exec_loop_case(ctx, case)
     ctx.sample(case, 'rand')
